@@ -157,9 +157,8 @@ func Run(t *testing.T, cs Case, opts bubble.StackOpts, hello []byte, oracle func
 				cl.Abort(syscall.ECONNRESET)
 			}
 		case "iofault":
-			h := helloFor(cs.Proto)
 			injected := IOErrors[cs.Err]
-			h.Prep = func(c, sv *memnet.Conn) {
+			prep := func(c, sv *memnet.Conn) {
 				sv.Fault = func(kind string, idx int) error {
 					if idx == cs.K {
 						return injected
@@ -167,6 +166,15 @@ func Run(t *testing.T, cs Case, opts bubble.StackOpts, hello []byte, oracle func
 					return nil
 				}
 			}
+			if cs.Proto == "plain" { // a plain HTTP request on the TLS port; the server's k-th I/O operation fails
+				cl = st.DialRawWith("victim", nil, prep)
+				cl.Raw.Write([]byte("GET / HTTP/1.1\r\nHost: x\r\n\r\n"))
+				synctest.Wait()
+				cl.Raw.Close()
+				break
+			}
+			h := helloFor(cs.Proto)
+			h.Prep = prep
 			cl = st.Connect("victim", nil, h)
 			session(cl, cs.Proto, nil)
 			cl.Close()
